@@ -118,7 +118,11 @@ func (r *RegexpFs) OpenFile(name string, flag int, perm os.FileMode) (File, erro
 	if err := r.dirOrMatches(name); err != nil {
 		return nil, err
 	}
-	return r.source.OpenFile(name, flag, perm)
+	f, err := r.source.OpenFile(name, flag, perm)
+	if err != nil {
+		return nil, err
+	}
+	return &RegexpFile{f: f, re: r.re}, nil
 }
 
 func (r *RegexpFs) Open(name string) (File, error) {
